@@ -45,7 +45,7 @@ func init() {
 		Technique: "bounded-exhaustive input enumeration against reference codecs (strconv, encoding/hex, math/big)",
 		Rule: "all tokens of length 0..6 (thorough: 0..7) over the alphabet " + strconv.Quote(c17Alphabet) + " fed to Uint64/Byte/Bytes.UnmarshalJSON directly and via encoding/json and goccy/go-json; " +
 			"uint64 values with <=2 non-zero nibbles + boundaries x {lower,upper,mixed,zero-padded} spellings; byte strings of every length x 3 patterns x 2 cases, one bad digit at every position (len<=64), odd digit counts; " +
-			"all ordered triples from 12 hex values and the token null into one Bytes destination (directly and as a struct field through encoding/json and goccy/go-json); bint Encode/Decode boundary set x pad 1..32. " +
+			"all ordered triples from 16 hex values (incl. growth from len < cap) and the token null into one Bytes destination (directly and as a struct field through encoding/json and goccy/go-json); bint Encode/Decode boundary set x pad 1..32; eth.DecodeHex/EncodeHex on every byte string of length 0..2 and lengths 3..40 x every first byte x 3 fills x {0x, 0X, unprefixed, odd} spellings, DecodeUint64/EncodeUint64 on the quantity set. " +
 			"A case is non-trivial when it is a judged spelling (0x-prefixed string token, or a structured value); every case is distinct by construction.",
 		Assumptions: []string{
 			"quantities with more than 16 hex digits are not spellings of a 64-bit value and are not judged",
@@ -249,6 +249,11 @@ func c17Bint(c *fw.Ctx, n uint64) {
 }
 
 func c17BytesLen(c *fw.Ctx, l int) {
+	defer func() {
+		if r := recover(); r != nil {
+			c.Violation("C17", "panic", "bytes/panic", fmt.Sprintf("byte string of length %d: panic %v", l, r), c17Case{Kind: "byteslen", N: uint64(l)})
+		}
+	}()
 	pats := []func(i int) byte{
 		func(i int) byte { return byte(i*7 + 1) },
 		func(i int) byte { return 0xff },
@@ -301,13 +306,21 @@ func c17BytesLen(c *fw.Ctx, l int) {
 }
 
 // hex values, plus the JSON token null ("tok:null"): decoding null into a reused destination must leave an empty value
-var c17SeqVals = []string{"", "00", "ff", "0102", "a1b2c3", "00000000", "ffffffffffffffff", "11", "2233445566778899aabbccddeeff0011", "7f", "deadbeef", "00ff00ff00", "tok:null"}
+var c17SeqVals = []string{"", "00", "ff", "0102", "a1b2c3", "00000000", "ffffffffffffffff", "11", "2233445566778899aabbccddeeff0011", "7f", "deadbeef", "00ff00ff00", "tok:null",
+	// longer than everything above, and of sizes that the allocator rounds up (26 -> cap 32, then 38 > cap): growth from len < cap
+	"0102030405060708090a0b0c0d0e0f1011", "aa112233445566778899aabbccddeeff00112233445566778899", "bb00112233445566778899aabbccddeeff00112233445566778899aabbccddeeff001122334455", "cc" + "00112233445566778899aabbccddeeff00112233445566778899aabbccddeeff"}
 
 type c17Doc struct {
 	To eth.Bytes `json:"to"`
 }
 
 func c17Seq(c *fw.Ctx, seq []string) {
+	defer func() {
+		if r := recover(); r != nil {
+			c.Violation("C17", "panic", "bytes/reuse-panic", fmt.Sprintf("sequence %v: panic %v", seq, r), c17Case{Kind: "seq", Seq: seq})
+			c.Eval(true)
+		}
+	}()
 	var dst eth.Bytes
 	var dst2 eth.Bytes
 	var viaStd, viaGoccy c17Doc
@@ -335,6 +348,60 @@ func c17Seq(c *fw.Ctx, seq []string) {
 		}
 	}
 	c.Eval(true)
+}
+
+// c17Helpers judges the string helpers of eth/encoding.go on VALID spellings only (they are documented to
+// cope with the 0x prefix and an odd digit count; what they do with invalid input is not part of the property).
+func c17Helpers(c *fw.Ctx, raw []byte) {
+	defer func() {
+		if r := recover(); r != nil {
+			c.Violation("C17", "panic", "hexhelper/panic", fmt.Sprintf("bytes %x: panic %v", raw, r), c17Case{Kind: "helper", Token: hex.EncodeToString(raw)})
+		}
+	}()
+	h := hex.EncodeToString(raw)
+	cas := c17Case{Kind: "helper", Token: h}
+	if got := eth.EncodeHex(raw); got != "0x"+h {
+		c.Violation("C17", "mismatch", "hexhelper/encode", fmt.Sprintf("EncodeHex(%x) = %q", raw, got), cas)
+	}
+	spell := []string{"0x" + h, "0X" + strings.ToUpper(h), "0x" + strings.ToUpper(h), h, strings.ToUpper(h)}
+	if len(h) > 0 && h[0] == '0' {
+		// odd digit count: the leading zero nibble left out, as nodes spell quantities
+		spell = append(spell, "0x"+h[1:], h[1:])
+	}
+	for _, sp := range spell {
+		if strings.HasPrefix(sp, "0x") && len(sp) == len(h) || strings.HasPrefix(sp, "0X") && len(sp) == len(h) {
+			continue // an unprefixed spelling that itself begins with 0x is ambiguous
+		}
+		if got := eth.DecodeHex(sp); !bytes.Equal(got, raw) {
+			c.Violation("C17", "mismatch", "hexhelper/decode", fmt.Sprintf("DecodeHex(%q) = %x want %x", sp, got, raw), cas)
+		}
+		c.Eval(true)
+	}
+	if got := eth.DecodeHex(eth.EncodeHex(raw)); !bytes.Equal(got, raw) {
+		c.Violation("C17", "mismatch", "hexhelper/roundtrip", fmt.Sprintf("DecodeHex(EncodeHex(%x)) = %x", raw, got), cas)
+	}
+}
+
+func c17HelperQuantity(c *fw.Ctx, n uint64) {
+	defer func() {
+		if r := recover(); r != nil {
+			c.Violation("C17", "panic", "hexhelper/uint64-panic", fmt.Sprintf("%d: panic %v", n, r), c17Case{Kind: "helperq", N: n})
+		}
+	}()
+	cas := c17Case{Kind: "helperq", N: n}
+	d := strconv.FormatUint(n, 16)
+	if got := eth.EncodeUint64(n); got != "0x"+d {
+		c.Violation("C17", "mismatch", "hexhelper/encode-uint64", fmt.Sprintf("EncodeUint64(%d) = %q", n, got), cas)
+	}
+	for _, sp := range []string{"0x" + d, "0X" + strings.ToUpper(d), d, "0x0" + d, "0x00" + d} {
+		if len(sp) > 18 {
+			continue
+		}
+		if got := eth.DecodeUint64(sp); got != n {
+			c.Violation("C17", "mismatch", "hexhelper/decode-uint64", fmt.Sprintf("DecodeUint64(%q) = %d want %d", sp, got, n), cas)
+		}
+		c.Eval(true)
+	}
 }
 
 func c17Values(thorough bool) []uint64 {
@@ -429,6 +496,36 @@ func c17Run(c *fw.Ctx) {
 			c17BytesLen(c, l)
 		}
 	}
+	// (6) string helpers: every byte string of length 0..2 exhaustively, lengths 3..40 with every value of the first
+	// byte (leading zero bytes and nibbles matter) x 3 fill patterns, and the quantity set
+	if c.Mine() {
+		c17Helpers(c, nil)
+		for a := 0; a < 256; a++ {
+			c17Helpers(c, []byte{byte(a)})
+		}
+	}
+	for a := 0; a < 256; a++ {
+		if !c.Mine() {
+			continue
+		}
+		for b := 0; b < 256; b++ {
+			c17Helpers(c, []byte{byte(a), byte(b)})
+		}
+		for l := 3; l <= 40; l++ {
+			for _, fill := range []byte{0x00, 0x5a, 0xff} {
+				raw := bytes.Repeat([]byte{fill}, l)
+				raw[0] = byte(a)
+				c17Helpers(c, raw)
+				raw[0], raw[1] = 0, byte(a) // a run of leading zero bytes
+				c17Helpers(c, raw)
+			}
+		}
+	}
+	for _, v := range vals {
+		if c.Mine() {
+			c17HelperQuantity(c, v)
+		}
+	}
 	// (4) ordered triples
 	for _, a := range c17SeqVals {
 		for _, b := range c17SeqVals {
@@ -468,5 +565,12 @@ func c17Replay(c *fw.Ctx, raw stdjson.RawMessage) {
 		c17Bint(c, k.N)
 	case "seq":
 		c17Seq(c, k.Seq)
+	case "byteslen":
+		c17BytesLen(c, int(k.N))
+	case "helper":
+		raw, _ := hex.DecodeString(k.Token)
+		c17Helpers(c, raw)
+	case "helperq":
+		c17HelperQuantity(c, k.N)
 	}
 }
